@@ -64,3 +64,6 @@ func StubDecodeRune(in *Interp, fn *ssa.Function, args []Value) Value {
 	}
 	return Sc{C: canon(scKind{bits: 32, signed: true}, uint64(r))}
 }
+
+// NamedStubs: stub groups selectable by name from check jobs.
+var NamedStubs = map[string]map[string]ExtFn{}
